@@ -9,7 +9,7 @@
 
 as Gallina functions `gen_<python name>` over coq/Model/SmearRt.v, statement by statement in source order, plus the
 defaults of their parameters (`gen_default_<method>_<parameter>`).  Proofs/Smear_Source.v proves them equal to the
-hand model Model/Smear.v (and the addressing functions of Model/Lattice.v).  Tools/py2coq/gen_lattice.py (the table
+hand model Model/Smear.v (and the addressing functions of Model/Lattice.v).  tools/py2coq/gen_lattice.py (the table
 shaped pieces used inside the hand model) is independent of this file.
 
 Fail-closed: a typed translator of the small Python fragment these methods are written in.  Every statement and
@@ -30,16 +30,22 @@ Conventions of the translation (the proofs rely on them):
   * a Python local `x` is the Coq variable `v_x`, rebinding is shadowing; `self` is threaded: a method that stores into
     self (or calls one that does) returns `result (lat K)` = the object afterwards, the others `result <type>`;
     every method is monadic in `result` (Lib/Py.v: Ok | Err cls), `raise Cls(..)` is `Err Cls`;
-  * `for x in <range(n) | np.ndindex(shape) | list of particles>` is `foldM body items state`; the state is the tuple of
-    the names that exist before the loop and are assigned in it (order of first binding; `self` / a lattice local
-    counts as assigned when its grid is stored to); a variable whose type widens inside a loop (norm = 0, then
-    norm += <FK>) enters the loop with the wider type; `continue` ends the iteration with the current state;
+  * `for x in <range(n) | np.ndindex(shape) | list of particles>` is `foldM (<method>_loop<n> <free variables>) items state`:
+    the loop body becomes a definition of its own, `gen_<method>_loop<n>` (n = position of the `for` in the method, in
+    source order), abstracted over the variables of the enclosing scope that it reads (in the order of their first
+    occurrence in the body), then the state, then the item; the state is the tuple of the names that exist before the
+    loop and are assigned in it (by type, then order of first binding; `self` / a lattice local counts as assigned when
+    its grid is stored to); a variable whose type widens inside a loop (norm = 0, then norm += <FK>) enters the loop
+    with the wider type; `continue` ends the iteration with the current state;
   * `if` without else / with branches that fall through: the names assigned in a branch and live afterwards are joined
     (`rbind (if c then .. else ..) (fun state => rest)`); a name first bound in the branches must be bound in every
     branch that falls through; branch values are coerced to the widest type;
   * `a < b` is Z.ltb / q_ltb / fv_ltb, `a <= b` Z.leb / Qle_bool / fv_leb by operand type (`>`/`>=` swap the operands);
     on FK only `>` (ocmp kgtb); chained comparisons and `and`/`or` evaluate left to right and stop early (andM/orM when
     an operand may raise); `x is None` on an `opt` value;
+  * `a / b` on finite floats (and int / int) is `q_div`: ZeroDivisionError on a zero divisor (Python float semantics; with
+    a numpy scalar the real code gives inf/nan and the following round() raises - the theorems exclude it by hypothesis);
+    `x ** 2` only; float literals are the exact rationals of their doubles;
   * `__init__` binds each `self.a = e` to a local and builds the record at the end (all 23 attributes must have
     been assigned; reading `self.a` before its assignment is rejected);
   * `warnings.warn(<text>)` is dropped (no effect on the modelled state), its condition is still evaluated;
@@ -528,8 +534,7 @@ class Translator:
                 a = self.coerce(a, Q, node)
                 return self.lift([a], lambda t: X(f"(Qpower {t[0]} 2)", Q))
             if a.ty == FV:
-                return self.lift([a], lambda t: X(f"(fv_times {t[0]} {t[0]})", FV)) if not a.mon else \
-                    self.lift([a], lambda t: X(f"(fv_times {t[0]} {t[0]})", FV))
+                return self.lift([a], lambda t: X(f"(fv_times {t[0]} {t[0]})", FV))
             self.err(f"power of {a.ty}", node)
         # arrays of floats
         if a.ty == QL and b.ty in NUM_RANK and o == "sub":
@@ -844,7 +849,7 @@ class Translator:
             x = self.coerce(self.E(st.value, env), self.cur.ret, st)
             return self.m(x)
         if isinstance(st, ast.AnnAssign):
-            if st.value is None or not st.simple == 0 and not isinstance(st.target, ast.Name):
+            if st.value is None:
                 self.err("annotated assignment not accepted", st)
             st = ast.copy_location(ast.Assign(targets=[st.target], value=st.value), st)
         if isinstance(st, ast.Assign):
@@ -941,6 +946,16 @@ class Translator:
             return False
         return ast.unparse(a.value) in (f"np.array({nm}, dtype=float)", f"np.array({nm})", f"np.asarray({nm}, dtype=float)")
 
+    TYPE_RANK = [Z, Q, FV, FK, B, STR, QL, FVA, FVL, KERN, MAT, ARR, PT, PL, LAT]
+
+    def canonical(self, names, env):
+        """carried / joined variables in a canonical order: by type, then by order of first binding (so that reordering
+        independent initialisations gives the same term)"""
+        def key(n):
+            t = env[n].ty
+            return (self.TYPE_RANK.index(t) if t in self.TYPE_RANK else len(self.TYPE_RANK), names.index(n))
+        return sorted(names, key=key)
+
     def tr_if(self, st, rest, env, k, kc):
         if self.identity_rebind(st, env):
             return self.S(rest, env, k, kc)
@@ -987,7 +1002,7 @@ class Translator:
             if ty is None:
                 self.err(f"no path through this statement falls through (variable {n})", st)
             target[n] = ty
-        jv = old + new
+        jv = self.canonical(old, env) + new
 
         def kj(e):
             parts = [self.coerce(X(e[n].name, e[n].ty, lit=e[n].lit), target[n], st) for n in jv]
@@ -1042,7 +1057,7 @@ class Translator:
         for tn in tnames:
             if read_later(tn, rest):
                 self.err(f"loop variable {tn} is read after the loop", st)
-        state = [n for n in env if n in asg]
+        state = self.canonical([n for n in env if n in asg], env)
         pre = []            # widenings of loop-carried variables: (name, Var) rebinding before the loop
         env0 = dict(env)
         while True:
@@ -1075,7 +1090,15 @@ class Translator:
         lp = pat([vname(tn) for tn in tnames])
         init = tup([env0[n].name for n in state])
         lname = f"{self.cur.coq}_loop{self.loop_ids[id(st)]}"
-        free = [n for n in env0 if n not in state and re.search(r"(?<![A-Za-z0-9_'])" + re.escape(env0[n].name) + r"(?![A-Za-z0-9_'])", body)]
+        # its free variables, in the order of their first occurrence in the body (stable under renaming and under
+        # reordering of the statements in front of the loop)
+        occ = {}
+        for n in env0:
+            if n not in state:
+                mo = re.search(r"(?<![A-Za-z0-9_'])" + re.escape(env0[n].name) + r"(?![A-Za-z0-9_'])", body)
+                if mo:
+                    occ[n] = mo.start()
+        free = sorted(occ, key=occ.get)
         params = " ".join(f"({env0[n].name} : {cty(env0[n].ty)})" for n in free)
         stty = "unit" if not state else cty(env0[state[0]].ty) if len(state) == 1 else "(" + " * ".join(cty(env0[n].ty) for n in state) + ")"
         itty = cty(eltys[0]) if len(eltys) == 1 else "(" + " * ".join(cty(t) for t in eltys) + ")"
